@@ -401,10 +401,15 @@ def rand_rec(rng, nref, giant=None):
     cigar = [[rng.choice(OPS), rng.choice(big + [rng.randrange(1, 1 << 28), rng.randrange(1, 300)])] for _ in range(ncig)]
     # keep pos + reference length inside int32 (validity bound of the format)
     pos = rng.choice([-1, 0, 0, 1, 255, 256, 65536, rng.randrange(0, 1 << 20), rng.randrange(0, (1 << 31) - 1)])
-    while pos + sum(n for o, n in cigar if o in CONSUMING) >= (1 << 31) - 1 and cigar:
+    lim = (1 << 31) - 1
+    if giant == "cigar":
+        cigar = [[o, rng.choice([1, 2, 3, 300, 65535])] for o, _ in cigar]
+    while pos + sum(n for o, n in cigar if o in CONSUMING) >= lim:
         i = max(range(len(cigar)), key=lambda j: cigar[j][1])
-        if cigar[i][1] <= 300:
+        if cigar[i][1] <= 65535:
             pos = rng.randrange(0, 1000)
+            if pos + sum(n for o, n in cigar if o in CONSUMING) >= lim:
+                cigar = [[o, min(n, 300)] for o, n in cigar]
         else:
             cigar[i][1] = rng.randrange(1, 300)
     ls = rng.choice([0, 0, 1, 2, 3, 4, 5, 7, 8, rng.randrange(0, 41)])
